@@ -484,11 +484,131 @@ pub fn run(run: &mut Run) {
             }
         });
     }
+    // (e) long strings: runs of one symbol, alone and around / inside canonical stems; FEN fields
+    // replaced by runs; a UCI list of k legal tokens
+    {
+        let jobs: Vec<(u8, usize)> = [P_SMALL, P_UCI, P_SAN, P_FEN, P_LIST].iter().flat_map(|&ps| (0..longstr_alphabet(ps).len()).map(move |i| (ps, i))).collect();
+        let b2 = longstr_boards();
+        let ks = LONG_KS;
+        run.par_shards(&format!("LONGSTR: runs of one symbol of lengths {:?}, alone, before, after and inside canonical stems; FEN fields replaced by runs; move lists of that many legal tokens", ks), jobs.len(), |ctx, j| {
+            let (ps, sym) = jobs[j];
+            for shape in 0..LONG_SHAPES {
+                for stem in 0..longstr_stems(ps).len().max(1) {
+                    for &k in ks.iter() {
+                        if let Some(t) = longstr_text(ps, sym, stem, shape, k) {
+                            longstr_run(ctx, ps, sym, stem, shape, k, &t, &b2);
+                        }
+                    }
+                }
+            }
+        });
+    }
     run.total.traces = run.total.cnt[RT];
     run.total.samples.push(json!({"uci": "a\u{e9}4", "san": "N", "fen": "8/8/8/8/8/8/8/8 w - - 0 1", "list": "e2e4  e7e5\u{a0}g1f3"}));
 }
 
+pub const LONG_KS: [usize; 24] = [7, 8, 9, 15, 16, 17, 31, 32, 33, 63, 64, 65, 127, 128, 129, 255, 256, 257, 1023, 1024, 1025, 65535, 65536, 65537];
+const LONG_SHAPES: usize = 6;
+
+fn longstr_alphabet(parser: u8) -> &'static [&'static str] {
+    match parser {
+        P_UCI => &strs::SIGMA_UCI,
+        P_SAN => &strs::SIGMA_SAN,
+        P_FEN => &SIGMA_FEN_EDIT,
+        P_LIST => &[" "],
+        _ => &SIGMA_SMALL,
+    }
+}
+
+fn longstr_stems(parser: u8) -> &'static [&'static str] {
+    match parser {
+        P_UCI => &["e2e4", "e7e8q", "0000"],
+        P_SAN => &["Nf3", "exd5", "O-O", "O-O-O", "e8=Q+", "Nbd7#", "e4"],
+        P_FEN => &["rnbqkbnr/pppppppp/8/8/8/8/PPPPPPPP/RNBQKBNR", "w", "KQkq", "-", "0", "1"],
+        P_LIST => &["g1f3 g8f6 f3g1 f6g8"],
+        _ => &["e4", "KQkq", "w", "P"],
+    }
+}
+
+/// the long string with the given descriptor, if that shape exists for the parser
+fn longstr_text(parser: u8, sym: usize, stem: usize, shape: usize, k: usize) -> Option<String> {
+    let c = *longstr_alphabet(parser).get(sym)?;
+    let stems = longstr_stems(parser);
+    let run = c.repeat(k);
+    match (parser, shape) {
+        (P_LIST, 5) => {
+            // k legal tokens from the initial position (the knights' four-ply cycle)
+            if stem != 0 || sym != 0 || k > 4100 {
+                return None;
+            }
+            let cyc = ["g1f3", "g8f6", "f3g1", "f6g8"];
+            Some((0..k).map(|i| cyc[i % 4]).collect::<Vec<_>>().join(" "))
+        }
+        (P_LIST, _) => None,
+        (_, 5) => None,
+        (_, 0) => (stem == 0).then_some(run),
+        (P_FEN, 4) => {
+            // the initial record with field `stem` replaced by the run
+            let mut f: Vec<String> = stems.iter().map(|x| x.to_string()).collect();
+            *f.get_mut(stem)? = run;
+            Some(f.join(" "))
+        }
+        (_, 4) => None,
+        (P_FEN, _) => {
+            let rec = stems.join(" ");
+            if stem != 0 {
+                return None;
+            }
+            Some(match shape {
+                1 => format!("{}{}", rec, run),
+                2 => format!("{}{}", run, rec),
+                _ => format!("{}{}{}", &rec[..1], run, &rec[1..]),
+            })
+        }
+        (_, _) => {
+            let st = *stems.get(stem)?;
+            Some(match shape {
+                1 => format!("{}{}", st, run),
+                2 => format!("{}{}", run, st),
+                _ => format!("{}{}{}", &st[..1], run, &st[1..]),
+            })
+        }
+    }
+}
+
+/// the initial position and one P30 position
+fn longstr_boards() -> Vec<(String, Board)> {
+    let init = text::read_fen("rnbqkbnr/pppppppp/8/8/8/8/PPPPPPPP/RNBQKBNR w KQkq - 0 1").expect("initial fen");
+    boards_of(&[init, strs::p30()[9]])
+}
+
+#[allow(clippy::too_many_arguments)]
+fn longstr_run(ctx: &mut Ctx, parser: u8, sym: usize, stem: usize, shape: usize, k: usize, t: &str, boards: &[(String, Board)]) {
+    let first_new = ctx.viol.len();
+    // the crash slot holds the descriptor (texts too long for a slot do not overwrite it); cases
+    // carry the descriptor instead of the text
+    set_slot(7, &[parser, sym as u8, stem as u8, shape as u8, (k & 0xff) as u8, (k >> 8 & 0xff) as u8, (k >> 16 & 0xff) as u8]);
+    match parser {
+        P_FEN => fen_text(ctx, t),
+        P_UCI => uci_text(ctx, t, boards),
+        P_SAN => san_text(ctx, t, boards),
+        P_LIST => list_text(ctx, t, &boards[..1]),
+        _ => small_text(ctx, t),
+    }
+    for v in ctx.viol[first_new..].iter_mut() {
+        v.case = json!({"kind": "longstr", "parser": parser, "sym": sym, "stem": stem, "shape": shape, "k": k});
+    }
+}
+
 pub fn replay(case: &Value, ctx: &mut Ctx) {
+    if case["kind"].as_str() == Some("longstr") {
+        let g = |k: &str| case[k].as_u64().unwrap_or(0) as usize;
+        let b2 = longstr_boards();
+        if let Some(t) = longstr_text(g("parser") as u8, g("sym"), g("stem"), g("shape"), g("k")) {
+            longstr_run(ctx, g("parser") as u8, g("sym"), g("stem"), g("shape"), g("k"), &t, &b2);
+        }
+        return;
+    }
     let bytes: Vec<u8> = case["text_bytes"].as_array().map(|a| a.iter().filter_map(|x| x.as_u64().map(|b| b as u8)).collect()).unwrap_or_default();
     let Ok(t) = String::from_utf8(bytes) else { return };
     let boards: Vec<(String, Board)> = match case["fen"].as_str() {
